@@ -73,7 +73,7 @@ func newMgrFix(c *vf.Case, self peer.ID, ds *doubles.RecDS, opts ...mgrOpt) *mgr
 	if f.val != nil {
 		f.val.Probe = probe
 		for _, t := range regTypes {
-			if err := m.RegisterVoucherType(datatransfer.TypeIdentifier(t), f.val); err != nil {
+			if err := m.RegisterVoucherType(datatransfer.TypeIdentifier(t), f.val.For(t)); err != nil {
 				panic(err)
 			}
 		}
